@@ -4,6 +4,8 @@ import (
 	"fmt"
 	"go/token"
 	"go/types"
+	"sort"
+	"strings"
 
 	"golang.org/x/tools/go/ssa"
 )
@@ -256,4 +258,387 @@ func usedAfter(at ssa.Instruction, v ssa.Value) string {
 		}
 	}
 	return ""
+}
+
+// rulePointerResultsChecked (mechanical sweep of round 8: deleting `if err != nil { return }` after
+// array.NextMessage() in Array.NextBytes/NextArray/NextError survives the suite): wherever framework
+// code calls a repository function returning (*T, error), the pointer is used only where that error
+// is known to be nil (A5.i applied to every such call, not only to the executors' extraction
+// calls). A failed read returns (nil, err); using the pointer anyway is a nil dereference in the
+// connection's goroutine — the request gets no reply and the connection is lost.
+func rulePointerResultsChecked(c *Ctx, rid string) {
+	c.rule(rid, "in redis, redis/proto and redis/auth every call of a repository function returning (*T, error) uses the pointer only under the nil test of that error (pass-through returns and guarded phis accepted)")
+	n := 0
+	for _, fn := range c.P.RepoFuncs(pkgRedis) {
+		if !inFramework(fn) {
+			continue
+		}
+		ord := map[string]int{}
+		allInstrs(fn, func(ins ssa.Instruction) {
+			call, ok := ins.(*ssa.Call)
+			if !ok {
+				return
+			}
+			cal := staticCallee(call.Common())
+			if cal == nil || !inRepo(cal) {
+				return
+			}
+			tup, isT := call.Type().(*types.Tuple)
+			if !isT || tup.Len() != 2 || !isErrorType(tup.At(1).Type()) {
+				return
+			}
+			if _, isP := tup.At(0).Type().Underlying().(*types.Pointer); !isP {
+				return
+			}
+			if errAlwaysNil(cal) {
+				return // (value, nil) producers are covered by the nil-test clause of R10.a
+			}
+			n++
+			sc := shortCallee(call)
+			ord[sc]++
+			key := fmt.Sprintf("%s/ptr-result:%s#%d", fnName(fn), sc, ord[sc])
+			// `arr, _ := NewArrayMessage().Array()`: an accessor on a value constructed just here
+			if len(call.Common().Args) > 0 {
+				if cc, isC := strip(call.Common().Args[0]).(*ssa.Call); isC {
+					if k := staticCallee(cc.Common()); k != nil && inRepo(k) && strings.HasPrefix(k.Name(), "New") {
+						c.ok(rid, key, c.P.instrPos(call), "accessor on a value constructed by "+k.Name()+" in this function")
+						return
+					}
+				}
+			}
+			if okE, why := derefsGuarded(call); okE {
+				c.ok(rid, key, c.P.instrPos(call), "pointer dereferenced only where the error is nil")
+			} else {
+				c.bad(rid, key, c.P.instrPos(call), "the pointer returned with an error is used although the call may have failed (nil on failure: a nil dereference in the connection goroutine, no reply for that request): "+why)
+			}
+		})
+	}
+	c.count("pointer-and-error-call-sites", n)
+	c.floor("pointer-and-error-call-sites", 40)
+}
+
+// derefsGuarded: every dereferencing use (receiver of a method call, field access, load) of the
+// pointer result of call happens where the call's error is known to be nil or the pointer itself
+// is known to be non-nil. Uses that only pass the pointer on (return, argument, phi, store) are
+// not dereferences.
+func derefsGuarded(call *ssa.Call) (bool, string) {
+	if call.Referrers() == nil {
+		return true, ""
+	}
+	var errEx, val *ssa.Extract
+	for _, r := range *call.Referrers() {
+		if ex, ok := r.(*ssa.Extract); ok {
+			if ex.Index == 1 {
+				errEx = ex
+			} else {
+				val = ex
+			}
+		}
+	}
+	if val == nil || val.Referrers() == nil {
+		return true, ""
+	}
+	for _, u := range *val.Referrers() {
+		deref := false
+		switch x := u.(type) {
+		case *ssa.FieldAddr:
+			deref = x.X == ssa.Value(val)
+		case *ssa.UnOp:
+			deref = x.Op == token.MUL && x.X == ssa.Value(val)
+		case ssa.CallInstruction:
+			cc := x.Common()
+			if cc.IsInvoke() {
+				deref = cc.Value == ssa.Value(val)
+			} else if len(cc.Args) > 0 && cc.Args[0] == ssa.Value(val) && cc.Signature().Recv() != nil {
+				deref = true
+				// methods that test their receiver against nil first are safe to call on nil
+				if cal := staticCallee(cc); cal != nil && cal.Blocks != nil && len(cal.Params) > 0 {
+					if iff, ok := cal.Blocks[0].Instrs[len(cal.Blocks[0].Instrs)-1].(*ssa.If); ok {
+						for _, at := range atomsOf(iff.Cond, true) {
+							if at.Kind == "nil" && at.X == ssa.Value(cal.Params[0]) {
+								deref = false
+							}
+						}
+					}
+				}
+			}
+		}
+		if !deref {
+			continue
+		}
+		guarded := false
+		for _, at := range factsAt(u.Block()) {
+			if at.Kind == "nil" && at.Pos && errEx != nil && at.X == ssa.Value(errEx) {
+				guarded = true
+			}
+			if at.Kind == "nil" && !at.Pos && at.X == ssa.Value(val) {
+				guarded = true
+			}
+		}
+		if !guarded {
+			if errEx == nil {
+				return false, "the error result is discarded and the pointer is dereferenced at " + u.String()
+			}
+			return false, "dereferenced at `" + u.String() + "` where the error may be non-nil"
+		}
+	}
+	return true, ""
+}
+
+// ruleConnLoopIndexSafety (R8C10-m1: error statistics keyed by text[:strings.IndexByte(text, ' ')],
+// -1 for a one-word error; R8C07-m1: a histogram bucket one past the table): the index and slice
+// expressions that the connection goroutine executes in package redis outside the executors
+// (the loop itself, dispatch, reply writing, and whatever instrumentation is called from them)
+// are proven in range like those of the executors (A8). A panic there is swallowed by the
+// connection barrier: no reply for the request, the pipelined requests behind it are dropped —
+// and a mutex held without defer at that moment is never released.
+func ruleConnLoopIndexSafety(c *Ctx, rid string) {
+	c.rule(rid, "A8 over the functions of package redis reachable from the connection loop other than the executors' own scope: every index and slice expression is proven in range by the inequality prover from the dominating tests; the result of strings/bytes Index* is -1 when nothing is found and proves nothing")
+	var roots []*ssa.Function
+	for _, cl := range c.P.connLoops() {
+		roots = append(roots, cl.Fn)
+	}
+	reach := c.P.repoReach(roots, func(f *ssa.Function) bool { return inFramework(f) && fnPkgPath(f) == pkgRedis })
+	execs, _ := c.P.executors()
+	var eroots []*ssa.Function
+	for _, e := range execs {
+		eroots = append(eroots, e.Fn)
+	}
+	ereach := c.P.repoReach(eroots, func(f *ssa.Function) bool { return inFramework(f) && fnPkgPath(f) == pkgRedis })
+	var scope []*ssa.Function
+	for f := range reach {
+		if f.Blocks != nil && f.Synthetic == "" && !ereach[f] {
+			scope = append(scope, f)
+		}
+	}
+	sort.Slice(scope, func(i, j int) bool { return c.P.key(scope[i]) < c.P.key(scope[j]) })
+	c.count("conn-loop-scope-functions", len(scope))
+	c.floor("conn-loop-scope-functions", 5)
+	rulePanicSitesIn(c, rid, scope, "conn-loop-index-sites", 0)
+}
+
+// ruleOnlyParserReadsConn (R8C02-m1: a protocol sniffer reads the first bytes of the stream with
+// one Read and pushes its whole buffer back, NULs included, when the first segment was shorter):
+// who-may-read. In package redis nothing but the parser consumes bytes of a client connection:
+// no Read/ReadByte/ReadFull/ReadAll/Copy/bufio use on a net.Conn, *tls.Conn, *redis.Conn or an
+// io.Reader in the functions the accept and connection loops run. (The TLS handshake reads inside
+// crypto/tls, not here.) What the parser is given is the connection itself or a reader built
+// from it by the standard library without consuming it.
+func ruleOnlyParserReadsConn(c *Ctx, rid string) {
+	c.rule(rid, "who-may-read: in package redis (not redis/proto) no call site reads from a connection or io.Reader (Read, ReadByte, io.ReadFull/ReadAtLeast/ReadAll, io.Copy*, bufio.Reader methods that consume): every byte of the request stream is consumed by the parser, whose reads are decided by R02.a-c whatever the chunking")
+	n, bad := 0, 0
+	for _, fn := range c.P.RepoFuncs(pkgRedis) {
+		if fnPkgPath(fn) != pkgRedis {
+			continue
+		}
+		allInstrs(fn, func(ins ssa.Instruction) {
+			cc := callCommon(ins)
+			if cc == nil {
+				return
+			}
+			name := calleeName(cc)
+			reads := false
+			switch {
+			case hasSuffixAny(name, "Conn).Read", "Reader).Read", "Reader).ReadByte", "Reader).ReadBytes", "Reader).ReadString", "Reader).ReadSlice", "Reader).ReadLine", "Reader).ReadRune", "Reader).Discard", "Reader).Peek", "Reader).WriteTo", "Conn).ReadFrom"):
+				reads = true
+			case nameIn(name, "io.ReadFull", "io.ReadAtLeast", "io.ReadAll", "io.Copy", "io.CopyN", "io.CopyBuffer", "io/ioutil.ReadAll"):
+				reads = true
+			}
+			n++
+			if !reads {
+				return
+			}
+			// reading a local in-memory reader is not reading the connection
+			var src ssa.Value
+			if cc.IsInvoke() {
+				src = cc.Value
+			} else if len(cc.Args) > 0 {
+				src = cc.Args[0]
+				if nameIn(name, "io.Copy", "io.CopyN", "io.CopyBuffer") && len(cc.Args) > 1 {
+					src = cc.Args[1]
+				}
+			}
+			if src != nil {
+				if k, isC := strip(src).(*ssa.Call); isC {
+					if nameIn(calleeName(k.Common()), "bytes.NewReader", "bytes.NewBuffer", "bytes.NewBufferString", "strings.NewReader", "os.Open") {
+						return
+					}
+				}
+				if t := src.Type().String(); strings.Contains(t, "os.File") || strings.Contains(t, "bytes.Buffer") || strings.Contains(t, "bytes.Reader") || strings.Contains(t, "strings.Reader") {
+					return
+				}
+			}
+			bad++
+			c.bad(rid, fmt.Sprintf("%s/read#%d:%s", fnName(fn), bad, name), c.P.instrPos(ins), "bytes of a client's stream are consumed outside the parser: what the parser then sees depends on how the bytes arrived (a short first read, a boundary inside what was taken)")
+		})
+	}
+	c.count("call-sites-scanned-for-reads", n)
+	c.floor("call-sites-scanned-for-reads", 100)
+	if bad == 0 {
+		c.ok(rid, "no-read-outside-parser", "", "no call site of package redis reads from a connection or reader")
+	}
+}
+
+// ruleDispatcherHandsReplyOn (R8C12-m1: a slow-command report sizes the reply with
+// array.NextMessages(), which advances the reply array's cursor; HKEYS/HVALS/HLEN walk the reply
+// of a nested HGETALL with Next() and find it already consumed): between the executor's return
+// and the dispatcher's own return, the reply is not modified — no store into a field of the
+// proto.Message / proto.Array it consists of, directly or in a function it is handed to. The
+// derived commands of the framework call the dispatcher recursively and read that very object.
+func ruleDispatcherHandsReplyOn(c *Ctx, rid string) {
+	c.rule(rid, "in the dispatcher (the function calling through the executor table) the message returned by the executor reaches the return unmodified: neither the dispatcher nor a function it passes the reply to (followed through static calls, accessors that return the reply's array included) stores into a field of proto.Message or proto.Array reachable from it — reading a reply with the cursor methods (Next*, NextMessages) consumes it for the derived command that asked for it")
+	n := 0
+	for _, di := range c.P.dispatchers() {
+		if di.Call == nil {
+			continue
+		}
+		n++
+		var reply ssa.Value
+		if di.Call.Referrers() != nil {
+			for _, r := range *di.Call.Referrers() {
+				if ex, ok := r.(*ssa.Extract); ok && ex.Index == 0 {
+					reply = ex
+				}
+			}
+		}
+		key := fnName(di.Fn) + "/reply-untouched"
+		if reply == nil {
+			c.ok(rid, key, c.P.instrPos(di.Call), "the executor's results are returned as they are")
+			continue
+		}
+		why := mutatesMessage(c.P, di.Fn, []ssa.Value{reply}, 0, map[*ssa.Function]bool{})
+		c.check(why == "", rid, key, c.P.instrPos(di.Call), "the reply is only tested, passed to read-only code and returned", "the executor's reply is modified before it is returned: "+why+" — a derived command that called the dispatcher for this reply reads a consumed or altered message")
+	}
+	c.count("dispatchers-with-executor-call", n)
+	c.floor("dispatchers-with-executor-call", 1)
+}
+
+func isProtoMsgOrArray(t types.Type) bool {
+	s := deref(t).String()
+	return strings.HasSuffix(s, "proto.Message") || strings.HasSuffix(s, "proto.Array")
+}
+
+// mutatesMessage: does fn store into a field of a proto.Message/Array reachable from roots
+// (values of fn), directly or through static repository callees?
+func mutatesMessage(p *Program, fn *ssa.Function, roots []ssa.Value, depth int, onStack map[*ssa.Function]bool) string {
+	if depth > 5 || fn == nil || fn.Blocks == nil {
+		return ""
+	}
+	taint := map[ssa.Value]bool{}
+	for _, r := range roots {
+		taint[r] = true
+	}
+	tainted := func(v ssa.Value) bool {
+		if v == nil {
+			return false
+		}
+		if taint[v] {
+			return true
+		}
+		s := strip(v)
+		return taint[s]
+	}
+	// propagate to a fixed point (small functions)
+	for iter := 0; iter < 6; iter++ {
+		changed := false
+		allInstrs(fn, func(ins ssa.Instruction) {
+			v, isV := ins.(ssa.Value)
+			if !isV || taint[v] {
+				return
+			}
+			add := false
+			switch x := ins.(type) {
+			case *ssa.Phi:
+				for _, e := range x.Edges {
+					if tainted(e) {
+						add = true
+					}
+				}
+			case *ssa.Extract:
+				add = tainted(x.Tuple)
+			case *ssa.Call:
+				// an accessor on a tainted message that returns part of it (Array(), NextMessages(), ...)
+				cc := x.Common()
+				recvT := false
+				if cc.IsInvoke() {
+					recvT = tainted(cc.Value)
+				} else if len(cc.Args) > 0 {
+					recvT = tainted(cc.Args[0])
+				}
+				if recvT {
+					rt := x.Type()
+					if tup, ok := rt.(*types.Tuple); ok && tup.Len() > 0 {
+						rt = tup.At(0).Type()
+					}
+					if isProtoMsgOrArray(rt) {
+						add = true
+					}
+					if sl, ok := rt.Underlying().(*types.Slice); ok && isProtoMsgOrArray(sl.Elem()) {
+						add = true
+					}
+				}
+			case *ssa.FieldAddr:
+				add = tainted(x.X) && false
+			case *ssa.UnOp:
+				if x.Op == token.MUL {
+					if fa, ok := x.X.(*ssa.FieldAddr); ok && tainted(fa.X) && (isProtoMsgOrArray(x.Type()) || func() bool {
+						sl, ok := x.Type().Underlying().(*types.Slice)
+						return ok && isProtoMsgOrArray(sl.Elem())
+					}()) {
+						add = true
+					}
+					if ia, ok := x.X.(*ssa.IndexAddr); ok && tainted(ia.X) {
+						add = true
+					}
+				}
+			case *ssa.Next:
+				add = tainted(x.Iter)
+			case *ssa.Range:
+				add = tainted(x.X)
+			case *ssa.Index:
+				add = tainted(x.X)
+			}
+			if add {
+				taint[v] = true
+				changed = true
+			}
+		})
+		if !changed {
+			break
+		}
+	}
+	why := ""
+	allInstrs(fn, func(ins ssa.Instruction) {
+		if why != "" {
+			return
+		}
+		switch x := ins.(type) {
+		case *ssa.Store:
+			if fa, ok := x.Addr.(*ssa.FieldAddr); ok && tainted(fa.X) && isProtoMsgOrArray(fa.X.Type()) {
+				owner, f, _, _ := fieldOf(fa)
+				why = fmt.Sprintf("%s stores into %s.%s at %s", fnName(fn), owner, f, p.instrPos(x))
+			}
+		case ssa.CallInstruction:
+			cc := x.Common()
+			cal := staticCallee(cc)
+			if cal == nil || !inRepo(cal) || cal.Blocks == nil || onStack[cal] {
+				return
+			}
+			var sub []ssa.Value
+			for i, a := range cc.Args {
+				if tainted(a) && i < len(cal.Params) {
+					sub = append(sub, cal.Params[i])
+				}
+			}
+			if len(sub) == 0 {
+				return
+			}
+			onStack[cal] = true
+			if w := mutatesMessage(p, cal, sub, depth+1, onStack); w != "" {
+				why = fmt.Sprintf("%s (called at %s)", w, p.instrPos(x))
+			}
+			delete(onStack, cal)
+		}
+	})
+	return why
 }
